@@ -219,7 +219,7 @@ class _Judge:
                 self.out.excluded += 1      # nothing was obtained from the complete listing
                 continue
             if bnum not in refobs['eds']:
-                self.fail('edition_unknown', f'C11/edition_unknown/cut={cls}',
+                self.fail('edition_unknown', 'C11/edition_unknown',
                           f'{origin}: results returned for edition {bnum}; the complete listing has '
                           f'editions {refobs["batches"]}', offset)
                 continue
@@ -228,16 +228,19 @@ class _Judge:
                 self.out.excluded += 1
                 continue
             skip = {'batch_data.elapsed_time'}
-            if cls == 'end_flag' and partial and pos == len(obs['batches']) - 1:
-                skip |= {'batch_data.simulation_time', 'batch_data.exploitation_time'}
+            where = 'edition-complete'
+            if cls == 'end_flag' and pos == len(obs['batches']) - 1:
+                where = 'cut-in-its-end-flag-line'
+                if partial:
+                    skip |= {'batch_data.simulation_time', 'batch_data.exploitation_time'}
             got = res[1]
             diff = sorted(p for p in set(got) | set(want[1])
                           if p not in skip and got.get(p) != want[1].get(p))
             if diff:
                 kinds = sorted({_strip_index(p) for p in diff})
-                self.fail('edition_differs', f'C11/edition_differs/{kinds[0]}/cut={cls}',
+                self.fail('edition_differs', f'C11/edition_differs/{kinds[0]}/{where}',
                           f'{origin}: edition {bnum} differs from the same edition of the complete listing '
-                          f'in {diff[:6]}', offset)
+                          f'in {diff[:6]} (cut line class: {cls})', offset)
         return good
 
     def same(self, here, fresh, offset, cls):
